@@ -296,7 +296,11 @@ func (c *Ctx) Step(step string) string {
 	case "payout": // outcome of the node's next claim payment attempts
 		w.ln.outcome[c.claimHash] = f[1]
 		return "ok"
-	case "settle": // an HTLC that was pending resolves (success|fail)
+	case "settle": // an HTLC that was pending resolves (success|fail); with `later` only when the back-end is asked
+		if a["later"] != "" {
+			w.ln.resolve[c.claimHash] = f[1]
+			return "ok"
+		}
 		if w.ln.payments[c.claimHash] == payPending {
 			if f[1] == "success" {
 				w.ln.payments[c.claimHash] = paySucceeded
@@ -395,6 +399,9 @@ func (c *Ctx) Step(step string) string {
 		} else {
 			w.btc.height += n
 		}
+		return "ok"
+	case "payblocks": // payblocks <chain> <n>: blocks arriving between failed claim payment attempts
+		w.ln.advChain, w.ln.advBlocks = f[1], uint32(atoiDef(f[2], 1))
 		return "ok"
 	case "fault":
 		w.faults[f[1]] = append(w.faults[f[1]], f[2])
